@@ -1,6 +1,5 @@
 """C14 Conditional requests are answered according to their validators (RFC 9110 section 13); 304 revalidation updates headers."""
 import calendar
-import email.utils
 import time
 
 from hypothesis import strategies as st
@@ -124,9 +123,9 @@ def execute(env, sc):
     path = "/" + env.ns()
     url = env.url(path)
     T0 = int(env.clock.now())
-    LM = {1: T0 - 3 * DAY, 2: T0 - 1 * DAY}
+    LM = {1: T0 - 3 * DAY, 2: T0 - 1 * DAY}      # LM[2] is reset to the (proxy clock) time at which the origin switches to version 2
     kind = sc["etag"]
-    st_ = {"version": 1, "gen": 0, "lifetime": sc["lifetime"]}
+    st_ = {"version": 1, "gen": 0, "lifetime": sc["lifetime"], "foreign304": False}
     log = []          # origin responses: (gen, version, status)
 
     def rep(ver):
@@ -158,10 +157,22 @@ def execute(env, sc):
             log.append((gen, ver, 412))
             return {"status": 412, "reason": "Precondition Failed", "headers": [["X-Gen", str(gen)]], "body_b64": ""}
         if want == "304":
+            held = set(v for (_, v, s) in log if s == 200)
+            if held and ver not in held:
+                # the origin confirms (to a client-supplied validator the proxy forwarded) a version the proxy never received
+                st_["foreign304"] = True
             log.append((gen, ver, 304))
             return {"status": 304, "reason": "Not Modified", "headers": hs, "framing": "none"}
         log.append((gen, ver, 200))
         return {"status": 200, "headers": hs + [["X-Version", str(ver)]], "body_tag": "%s#%d" % (path, ver), "body_len": sc["body_len"]}
+
+    def fail(sig, detail):
+        if st_["foreign304"]:
+            # everything that goes wrong after the proxy took an origin 304 for a version it does not hold as validation of its own
+            # (older) entry is one defect: one signature, the specific symptom goes into the detail
+            r.fail("stale-entry-validated-by-origin-304-for-client-supplied-validator", "[%s] %s" % (sig, detail))
+        else:
+            r.fail(sig, detail)
 
     env.origin.script(path, beh)
     body = {v: httpref.keyed_stream("%s#%d" % (path, v), sc["body_len"]) for v in (1, 2)}
@@ -174,9 +185,9 @@ def execute(env, sc):
                 tag = etag_text(etag_of(kind, v))
                 got = m.get("etag")
                 if (tag or None) != (got.decode("latin-1") if got is not None else None):
-                    r.fail("200-carries-etag-of-another-version", "%s: body of version %d with ETag %r" % (what, v, got))
+                    fail("200-carries-etag-of-another-version", "%s: body of version %d with ETag %r" % (what, v, got))
                 return v
-        r.fail("200-body-is-not-a-current-version", "%s: %d body bytes match none of the versions %r" % (what, len(m.body), sorted(candidates)))
+        fail("200-body-is-not-a-current-version", "%s: %d body bytes match none of the versions %r" % (what, len(m.body), sorted(candidates)))
         return None
 
     def plain_get(what, cc=None):
@@ -196,11 +207,11 @@ def execute(env, sc):
             got = m.get("x-gen")
             r.label("hit-after-304" if nstatus == 304 else "hit-after-200")
             if got is None or got.decode("latin-1") != str(newest):
-                r.fail("hit-after-304-has-stale-headers" if nstatus == 304 else "hit-carries-headers-of-an-older-response",
+                fail("hit-after-304-has-stale-headers" if nstatus == 304 else "hit-carries-headers-of-an-older-response",
                        "%s: served from cache with X-Gen %r; the newest origin response for the entry was generation %d (origin log (gen, version, status): %r)" % (what, got, newest, log))
             elif nstatus == 304:
                 if not m.has("x-added-by-gen-%d" % newest):
-                    r.fail("hit-after-304-lacks-header-added-by-the-304", "%s: X-Added-By-Gen-%d is missing" % (what, newest))
+                    fail("hit-after-304-lacks-header-added-by-the-304", "%s: X-Added-By-Gen-%d is missing" % (what, newest))
                 else:
                     r.label("304-update-verified-on-later-hit")
                     r.nontrivial = True
@@ -215,7 +226,13 @@ def execute(env, sc):
         if stp["advance"]:
             offset += stp["advance"]
             env.squid.set_clock(offset)
-        if stp["origin_change"]:
+        if stp["origin_change"] and st_["version"] == 1:
+            # the new version is modified "now", later than anything the proxy fetched before (2 s apart: HTTP dates have 1 s resolution)
+            offset += 2
+            env.squid.set_clock(offset)
+            LM[2] = int(env.clock.now())
+            offset += 2
+            env.squid.set_clock(offset)
             st_["version"] = 2
         cur = st_["version"]
         # candidate representations "that would otherwise be sent": decided after the request (arrival => origin's current one)
@@ -248,7 +265,7 @@ def execute(env, sc):
         if not usable(m, r):
             break
         arrived = len(log) > before
-        if m.has("x-squid-error"):
+        if m.has("x-squid-error") and m.status != 412:
             r.label("proxy-error-page:%s" % m.status)
             break
         if not m.complete:
@@ -273,15 +290,15 @@ def execute(env, sc):
         r.label("%s:%s:%s" % ("arrival" if arrived else "cache", why, m.status))
         if m.status == 412:
             if "412" not in wants:
-                r.fail("412-although-if-match-does-not-fail:" + why, "%s -> 412" % what)
+                fail("412-although-if-match-does-not-fail:" + why, "%s -> 412" % what)
         elif "412" in wants and len(wants) == 1:
-            r.fail("if-match-fails-but-no-412:%d" % m.status, "%s -> %d; representation %s" % (what, m.status, [etag_text(rep(v)[0]) for v in cands]))
+            fail("if-match-fails-but-no-412:%d" % m.status, "%s -> %d; representation %s" % (what, m.status, [etag_text(rep(v)[0]) for v in cands]))
         elif m.status == 304:
             if not (wants & {"304", "open"}):
-                r.fail("304-without-matching-validator:" + why, "%s -> 304; representation(s) %s Last-Modified %s" % (
+                fail("304-without-matching-validator:" + why, "%s -> 304; representation(s) %s Last-Modified %s" % (
                     what, [etag_text(rep(v)[0]) for v in cands], [rep(v)[1] and http_date(rep(v)[1]) for v in cands]))
             elif m.body:
-                r.fail("304-with-body", "%s: %d body bytes" % (what, len(m.body)))
+                fail("304-with-body", "%s: %d body bytes" % (what, len(m.body)))
         elif m.status == 200:
             judge_200(m, cands, what)
             if conditional and not arrived and "200" in wants:
